@@ -213,6 +213,31 @@ func runC02(p *Prog, r *Report, tier string) {
 			}
 			_, isLen := lenOfValue(ia.Index)
 			first := false
+			// (b) the first octet of the local specifier bytes (the slice the element id was put into at [0:2]), set before those
+			// bytes are appended to the record buffer
+			if z, isZ := constInt(ia.Index); isZ && z == 0 {
+				root := sliceRoot(ia.X)
+				_, isMake := root.(*ssa.MakeSlice)
+				if _, isAlloc := root.(*ssa.Alloc); isMake || isAlloc { // make with a constant length is compiled as new [n]T + slice
+					sameAsID := false
+					for _, s := range spec {
+						if s.Low == 0 && len(s.In.Call.Args) > 1 && sliceRoot(s.In.Call.Args[1]) == root {
+							sameAsID = true
+						}
+					}
+					beforeAppend := false
+					eachInstr(ai, func(x ssa.Instruction) {
+						if c, ok := x.(*ssa.Call); ok {
+							if b, ok := c.Call.Value.(*ssa.Builtin); ok && b.Name() == "append" && len(c.Call.Args) == 2 && sliceRoot(c.Call.Args[1]) == root {
+								if tn, fn, _, ok := loadedField(c.Call.Args[0]); ok && tn+"."+fn == "pkg/entities.baseRecord.buffer" {
+									beforeAppend = reachableBlockEdgeFree(in.Block(), c.Block()) && !reachable(c, in, nil)
+								}
+							}
+						}
+					})
+					first = sameAsID && beforeAppend
+				}
+			}
 			if isLen {
 				if lc := ia.Index.(*ssa.Call); lc.Block() == ai.Blocks[0] {
 					// len(buffer) taken before the specifier was appended
